@@ -29,6 +29,12 @@ OPTS = {
 
 def gen(W):
     sc = pipeline.gen_scenario(W, OPTS)
+    # fault arm: one connection's socket starts failing at its n-th send (the others keep reading);
+    # a worker parked on that connection must be woken by the teardown
+    sc["fault"] = None
+    if W.chance(0.3):
+        sc["fault"] = {"cid": W.draw(len(sc["conns"])), "send": W.draw(12),
+                       "errno": W.choice(["ETIMEDOUT", "EHOSTUNREACH", "RST", "EINVAL"])}
     return sc
 
 
@@ -53,6 +59,13 @@ def run_one(tapes, tier, scenario=None):
         snap["queue"] = len(sim.dispatcher.queue)
 
     k.on_finish = lambda k: before_teardown(sim)
+    fault = sc.get("fault")
+    if fault:
+        import errno as _errno
+        code = -1 if fault["errno"] == "RST" else getattr(_errno, fault["errno"])
+        # persistent failure: every send from the n-th on fails
+        for i in range(fault["send"], fault["send"] + 400):
+            sim.add_fault(fault["cid"], "send", i, code)
     sim.run()
 
     feat = "+expect" if any(e["expect"] for exp in ctx.expected.values() for e in exp) else ""
@@ -60,12 +73,24 @@ def run_one(tapes, tier, scenario=None):
         res.v("livelock", "io_spin" + feat, "I/O thread spins without progress: %r; channels %r" % (
             [e for e in k.history[-3:]], snap.get("chans")))
     elif k.end_reason == "quiescent":
+        for cid, st in snap["chans"].items():
+            if st.get("waiters") and (not st.get("connected") or st.get("pending", 0) <= sc["watermark"]):
+                res.v("quiescent", "producer_parked_on_dead_or_drained_channel", "conn %d: a worker is parked on the output buffer although the channel is %s with %d bytes pending (mark %d); threads %r" % (
+                    cid, "connected" if st.get("connected") else "closed", st.get("pending", 0), sc["watermark"], sim.final_threads))
         for cid, exp_all in ctx.expected.items():
             exp = pipeline.served_prefix(exp_all)
             s = sim.conns.get(cid)
             if s is None:
                 continue
             if s.closed:
+                continue
+            if fault and fault["cid"] == cid and any(e[2] == "fault" and e[3] == cid for e in k.history):
+                if fault["errno"] == "RST" or True:
+                    # the faulted connection itself need not be served, but it must not stay open forever
+                    rs_, _p = parse_stream(s.wire, [e["method"] for e in exp], s.closed)
+                    if len([r for r in rs_ if not r.interim and r.complete]) < len(exp):
+                        res.v("quiescent", "faulted_connection_left_open", "conn %d: socket errors since send %d (%s) but the connection is still open and unanswered at quiescence; channel %r" % (
+                            cid, fault["send"], fault["errno"], snap["chans"].get(cid)))
                 continue
             rs, probs = parse_stream(s.wire, [e["method"] for e in exp], s.closed)
             finals = [r for r in rs if not r.interim and r.complete]
